@@ -525,6 +525,21 @@ void run_probes(Tokens& t, Case& cs, Tol const& tol)
     }
     InputBuilder build_input{std::move(opts)};
     OrangeInput inp = build_input(*cs.last);
+    // declared bounding box of every volume (what the BIH will use)
+    for (auto const& vu : inp.universes)
+    {
+        if (auto const* ui = std::get_if<UnitInput>(&vu))
+        {
+            for (auto const& v : ui->volumes)
+            {
+                std::cout << "vol " << ui->label.name << " " << v.label.name;
+                if (!v.bbox) { std::cout << " null\n"; continue; }
+                for (auto x : v.bbox.lower()) std::cout << " " << hex(x);
+                for (auto x : v.bbox.upper()) std::cout << " " << hex(x);
+                std::cout << "\n";
+            }
+        }
+    }
     OrangeParams params{std::move(inp)};
     CollectionStateStore<OrangeStateData, MemSpace::host> state(params.host_ref(), 1);
 
